@@ -139,6 +139,9 @@ fn check(rep: &mut CaseReport, tag: &str, n: usize, s: &DataSetSummary, e: &Expe
             bad!("std-dev", "std_dev {sd} != sqrt(variance) {exp_sd}");
         }
     }
+    if s.dispersion.range.range() != e.high - e.low {
+        bad!("range-width", "range() = {} but the dataset spans [{}, {}] (width {})", s.dispersion.range.range(), e.low, e.high, e.high - e.low);
+    }
     if !s.dispersion.range.activated || s.dispersion.range.low != e.low || s.dispersion.range.high != e.high {
         bad!("range", "range [{}, {}] (activated {}) != [{}, {}]", s.dispersion.range.low, s.dispersion.range.high, s.dispersion.range.activated, e.low, e.high);
     }
